@@ -88,6 +88,16 @@ def scenarios(tier):
         scn("copy|rename-dst", SEL_AB, A=["copy12"], B=["renother"]),
         scn("select|select-inactive", [], A=["selother"], B=["selother"]),
         scn("copy|expunge", SEL_AB + DEL1, A=["expunge"], B=["copy12"]),
+        # deviations that *stay*: an operation passed over remains postponed until nothing else can run, so one session's
+        # command can run to completion in the middle of the other's (loop option sticky_ops)
+    ]
+    if tier != "quick":
+        S += [
+            dict(scn("copy|expunge sticky", SEL_AB + DEL1, A=["expunge"], B=["copy12"]), loopopts={"preempt_timers": False, "sticky_ops": True}),
+            dict(scn("move1|fetchall sticky", SEL_AB, A=["move1"], B=["fetchall"]), loopopts={"preempt_timers": False, "sticky_ops": True}),
+            dict(scn("store|store sticky", SEL_AB, A=["store1"], B=["store1m"]), loopopts={"preempt_timers": False, "sticky_ops": True}),
+        ]
+    S += [
         # selecting the mailbox one has selected already, while another session changes it
         scn("reselect,noop|expunge", SEL_AB + DEL1, A=["expunge"], B=["selinbox", "noop"]),
         scn("re-examine,noop|move", SEL_AB, A=["move1"], B=["exinbox", "noop"]),
@@ -115,13 +125,13 @@ def run(tier, seed, jobs) -> Result:
     per = []
     caps = []
     distinct = 0
-    heavy = ("move1|fetch3", "move1|move3", "move|moveback", "copy|rename-dst", "copy|expunge", "re-examine,noop|move")
+    heavy = ("move1|fetch3", "move1|move3", "move|moveback", "copy|rename-dst", "re-examine,noop|move")
     for sc in scenarios(tier):
         b = bound
         if tier == "quick" and sc["name"] in heavy:
             b = 1  # >100 choice points each: two deviations are explored in the thorough tier (and copy|delete-dst, copy|copyback stay at 2 here)
         if tier != "quick":
-            sc = dict(sc, loopopts={"preempt_timers": True})
+            sc = dict(sc, loopopts=dict(sc.get("loopopts") or {}, preempt_timers=True))
             if sc["name"] in ("expunge|fetch3", "expunge|store3", "expunge|search", "expunge|uidfetch", "close|fetch2", "store|fetchbody",
                               "store|store", "fetchbody|search", "append|fetchflags", "append|append", "select|select-inactive"):
                 b = 3
